@@ -392,6 +392,41 @@ func ruleCondContext(c *Ctx) {
 			}
 		}
 		c.Floor("uses of contract groups in the runtime package", nuse, 1)
+		// the groups come from the contract's *state* (ContractManagement storage, through Context.GetContract): the
+		// manifest a running frame carries is a snapshot taken when the frame was loaded, and a contract that updated or
+		// destroyed itself earlier in the same invocation is no longer what that snapshot says
+		nsrc := 0
+		for _, d := range c.P.AllFuncDecls() {
+			if d.Pkg != rp || d.Decl.Body == nil {
+				continue
+			}
+			sig := d.Obj.Type().(*types.Signature)
+			if sig.Results().Len() == 0 || !namedTypeIs(sig.Results().At(0).Type(), "pkg/smartcontract/manifest", "Groups") {
+				continue
+			}
+			ff := c.P.NewFuncCFG(d)
+			for _, rs := range ff.Returns() {
+				ret, ok := rs.node.(*ast.ReturnStmt)
+				if !ok || len(ret.Results) == 0 {
+					continue
+				}
+				if id, ok := ast.Unparen(ret.Results[0]).(*ast.Ident); ok && id.Name == "nil" {
+					continue
+				}
+				nsrc++
+				key := fmt.Sprintf("groups-from-state.%s#%d", FuncKey(d.Obj), nsrc)
+				m := ff.Mentions(ret.Results[0], rs.blk)
+				switch {
+				case m["pkg/vm.(*Context).GetManifest"]:
+					c.Fail(key, c.P.Pos(ret.Pos()), FuncKey(d.Obj)+" answers a group question from the manifest snapshot of a running frame (vm.Context.GetManifest): a contract that removed its group by update, or destroyed itself, earlier in the same invocation still counts as a member")
+				case m["pkg/core/interop.(*Context).GetContract"]:
+					c.OK(key, c.P.Pos(ret.Pos()), "groups are read from the contract state")
+				default:
+					c.Fail(key, c.P.Pos(ret.Pos()), FuncKey(d.Obj)+" returns groups that do not derive from the contract state (Context.GetContract)")
+				}
+			}
+		}
+		c.Floor("group sources in the runtime package", nsrc, 1)
 	}
 	// what the VM is executing when it loads a script is that script's *caller*: wherever a loader passes the current
 	// script hash to loadScriptWithCallingHash it is the caller argument, never the hash of the loaded script
